@@ -574,6 +574,23 @@ func (b *Body) checkStringAccessors(l *Ledger) {
 		} else {
 			l.add("R-DISPATCH", b.Name, key, b.rel(fn.Pos()), Discharged, "every nil-error return is dominated by the ok edge of the comma-ok lookup and by obj != nil", true)
 		}
+		key2 := fmt.Sprintf("Operation.%s(): the string returned on success is what the codec's decoder made of the %q member", spec.method, spec.member)
+		bad2 := ""
+		n2 := 0
+		for _, r := range liveReturns(fn) {
+			if !isNilConst(retVal(r, ei)) {
+				continue
+			}
+			n2++
+			if why := b.decodedString(retVal(r, 0), objv); why != "" {
+				bad2 = "return at " + b.posOf(r) + ": " + why + " (escapes such as \\u0061 or \\/ in the member would not be resolved, or a non-string member would be accepted)"
+			}
+		}
+		if bad2 != "" {
+			l.add("R-DISPATCH", b.Name, key2, b.rel(fn.Pos()), Violated, bad2, true)
+		} else if n2 > 0 {
+			l.add("R-DISPATCH", b.Name, key2, b.rel(fn.Pos()), Discharged, fmt.Sprintf("%d successful return(s), each the content of a local written only by the decoder from *obj", n2), true)
+		}
 	}
 }
 
@@ -1593,6 +1610,23 @@ func (b *Body) checkOperationShape(l *Ledger) {
 	} else {
 		l.add("R-DISPATCH", b.Name, key, b.rel(kind.Pos()), Discharged, "every return other than the constant \"unknown\" is dominated by ok && obj != nil", true)
 	}
+	key = "Operation.Kind(): the kind returned is what the codec's decoder made of the op member"
+	bad = ""
+	n := 0
+	for _, r := range liveReturns(kind) {
+		if s, isS := strConst(retVal(r, 0)); isS && s == "unknown" {
+			continue
+		}
+		n++
+		if why := b.decodedString(retVal(r, 0), objv); why != "" {
+			bad = "return at " + b.posOf(r) + ": " + why + " (an op spelled with escapes, \"\\u0061dd\", would be reported as unknown and the patch rejected)"
+		}
+	}
+	if bad != "" {
+		l.add("R-DISPATCH", b.Name, key, b.rel(kind.Pos()), Violated, bad, true)
+	} else if n > 0 {
+		l.add("R-DISPATCH", b.Name, key, b.rel(kind.Pos()), Discharged, fmt.Sprintf("%d decoded return(s), each the content of a local written only by the decoder from *obj", n), true)
+	}
 }
 
 
@@ -1667,4 +1701,83 @@ func (b *Body) operationOrderObligation(l *Ledger, ai *applyInfo) {
 	} else {
 		l.add("R-DISPATCH", b.Name, key, b.rel(fn.Pos()), Discharged, fmt.Sprintf("the dispatch loop plus %d other loop(s) over the patch, none with an early exit into an error return", n), true)
 	}
+}
+
+
+// codecDecodeWrapper: f is a codec decoding entry point, or a library function
+// that does nothing but hand its first two parameters to one.
+func (b *Body) codecDecodeWrapper(f *ssa.Function, depth int) bool {
+	if f == nil || depth > 2 {
+		return false
+	}
+	if f.Pkg == b.Codec && b.Codec != nil {
+		return strings.HasPrefix(f.Name(), "Unmarshal")
+	}
+	if f.Pkg != nil && f.Pkg.Pkg.Path() == "encoding/json" {
+		return f.Name() == "Unmarshal" // the legacy package decodes with the standard library
+	}
+	if f.Pkg != b.Lib || f.Blocks == nil || len(f.Params) < 2 {
+		return false
+	}
+	ok := false
+	n := 0
+	allInstrs(f, func(i ssa.Instruction) {
+		call, isCall := i.(*ssa.Call)
+		if !isCall {
+			return
+		}
+		n++
+		g := call.Call.StaticCallee()
+		if len(call.Call.Args) >= 2 && call.Call.Args[0] == ssa.Value(f.Params[0]) && call.Call.Args[1] == ssa.Value(f.Params[1]) && b.codecDecodeWrapper(g, depth+1) {
+			ok = true
+		}
+	})
+	return ok && n == 1
+}
+
+// decodedString: the string value v is the content of a local that is written
+// only by the codec's decoder applied to text derived from `from` (the raw
+// member). Returns a reason when it is not.
+func (b *Body) decodedString(v ssa.Value, from ssa.Value) string {
+	u, ok := v.(*ssa.UnOp)
+	if !ok || u.Op != token.MUL {
+		return "the returned string is " + describeValue(v) + ", not the content of a variable filled by the decoder"
+	}
+	al, ok := u.X.(*ssa.Alloc)
+	if !ok {
+		return "the returned string is loaded from " + describeValue(u.X)
+	}
+	n := 0
+	bad := ""
+	for _, r := range *al.Referrers() {
+		switch y := r.(type) {
+		case *ssa.Store:
+			if y.Addr == ssa.Value(al) {
+				bad = "the string is assigned at " + b.posOf(y) + " rather than decoded"
+			}
+		case *ssa.MakeInterface:
+			for _, r2 := range *y.Referrers() {
+				ci, ok := r2.(*ssa.Call)
+				if !ok {
+					continue
+				}
+				if !b.codecDecodeWrapper(ci.Call.StaticCallee(), 0) {
+					bad = "the string is filled by " + calleeLabel(&ci.Call) + ", which is not the embedded codec's decoder"
+					continue
+				}
+				in := unwrapConv(ci.Call.Args[0])
+				if ld, ok := in.(*ssa.UnOp); !ok || ld.X != from {
+					bad = "the decoder input at " + b.posOf(ci) + " is not the member's raw text"
+					continue
+				}
+				n++
+			}
+		case ssa.CallInstruction:
+			bad = "the string's address is passed to " + calleeLabel(y.Common())
+		}
+	}
+	if bad == "" && n == 0 {
+		bad = "no decoder call fills the returned string"
+	}
+	return bad
 }
